@@ -36,6 +36,13 @@ Theorem c16_paging_terminates :
 Proof. exact closest_terminates. Qed.
 Print Assumptions c16_paging_terminates.
 
+(* The correspondence check evaluates [get_closest_eval] (one sort instead of
+   one per page); it is the same function. *)
+Theorem c16_eval_shortcut_sound :
+  forall t key K limit, get_closest_eval t key K limit = get_closest t key K limit.
+Proof. exact get_closest_eval_correct. Qed.
+Print Assumptions c16_eval_shortcut_sound.
+
 (* 2. At most [limit] returned peers per IP group. *)
 Theorem c16_group_limit :
   forall (c : crawl) (key : N) (K limit : nat) (l : list N),
